@@ -32,7 +32,7 @@ def build():
                 "crate::nom::map_res_digit1(|s: &str| -> (pr: Result<u64, crate::nom::ParseIntError>) ensures (match pr { Ok(v) => crate::nom::parse_u64_spec(s@) == Some(v), Err(_) => crate::nom::parse_u64_spec(s@) is None }) { crate::nom::parse_u64(s) }, input)"),
                ("T-CLOSURE", r"nb\.checked_mul\(mult\)\.map\(Duration::from_secs\)",
                 "nb.checked_mul(mult).map(|s__: u64| -> (d__: Duration) ensures dur(d__) == (s__ as nat) * 1_000_000_000 { Duration::from_secs(s__) })", None)],
-        at=[("before_stmt", "Ok((input,", 1, """
+        at=[("before_tail", None, 1, """
     proof {
         let n = crate::nom::digits_prefix_len(input_0@);
         assert(input@ == input_0@.skip(n).skip(1));
